@@ -1,14 +1,19 @@
 (* DfaTop.v — the lazy DFA model end to end: cache machine (DfaCache.v) + pure layer against the
-   reference (DfaRef.v), for NFAs without look-around states.  Under the guards of DfaCache.v
-   (sound byte classes, the current order-preserving key and entry-point code, no acceleration
-   bytes in the cache for searchAt / searchEarliestMatch)
-   the answer delivered to the caller — DFA result or NFA fallback — is the reference answer for
-   IsMatchAt (C01/C14), and for SearchAt: none iff the reference finds none, and a reported end is
-   the end of an accepting path from the LEFTMOST start (C02/C14, partial: the priority among the
-   ends of the leftmost start is not proved). *)
+   reference (DfaRef.v), for NFAs without look-around states and the CURRENT code (all variant
+   flags false).  The only remaining guards are about the byte classes of the NFA (class_sound:
+   they separate what determinisation distinguishes; runs_ok: consecutive runs covering 0..255).
+   For EVERY history of forward calls on a cache since NewCache() — any capacity, any number of
+   clears, acceleration included — the answer delivered to the caller (DFA result or NFA fallback)
+   is the reference answer for IsMatchAt (C01/C13/C14); for SearchAt: none iff the reference finds
+   none, and a reported end is the end of an accepting path from the LEFTMOST start (C02/C13/C14,
+   partial: the priority among the ends of the leftmost start is not proved); for
+   SearchAtAnchored: none iff no path anchored at the offset, a reported end is such a path's. *)
 From Coq Require Import List NArith ZArith Lia Bool Arith PeanoNat.
 From CV Require Import Nfa NfaRef Dfa DfaRef DfaCache.
 Import ListNotations.
+
+Lemma bytes_ok_255 h : bytes_ok h -> bytes255 h.
+Proof. unfold bytes_ok, bytes255. intros H. eapply Forall_impl; [|exact H]. cbn. intros b Hb. lia. Qed.
 
 Section Top.
   Variable A : nfa.
@@ -17,11 +22,15 @@ Section Top.
   Hypothesis Hnl : no_look A = true.
   Hypothesis Hpre : prefix_ok A = true.
   Hypothesis Hcls : forall ids b b', class_of cfg b = class_of cfg b' -> cdet A cfg ids b = cdet A cfg ids b'.
+  Hypothesis Hruns : runs_ok 0%N (cfg_classes cfg) (stride cfg) = true.
+  (* the current code *)
   Hypothesis Hkey : cfg_sorted_key cfg = false.
+  Hypothesis Hloose : cfg_loose_accel cfg = false.
   Hypothesis Hentry : cfg_old_entry cfg = false.
-  Hypothesis Hstride : 2 <= stride cfg.
+  Hypothesis Hnoeoi : cfg_accel_no_eoi cfg = false.
 
   Let Hwb : has_wb A = false := has_wb_nl A Hnl.
+  Let Hel : has_endline A = false := has_endline_nl A Hnl.
   Let Hempty := start_match_empty A Hwf Hnl Hpre.
 
   Lemma ref_end_none h at_ : ref_end A h at_ = None <-> find_at A h at_ = Done None.
@@ -31,46 +40,44 @@ Section Top.
     now elim Ht.
   Qed.
 
-  (* C01 / C14 for the cached entry point *)
+  (* C01 / C14 with any cache satisfying the invariants *)
   Theorem dfa_is_match_cached_correct h c at_ :
-    bytes_ok h -> at_ <= length h ->
-    cinv A cfg c -> accel_ok c ->
+    bytes_ok h -> at_ <= length h -> cinv A cfg c -> accel_sound A cfg c ->
     snd (dfa_is_match_at A cfg c h at_) = ref_bool A h at_.
   Proof.
     intros Hb Hat Hc Ha. unfold dfa_is_match_at.
     destruct (c_is_match_at A cfg h c at_) as [c' o] eqn:E.
-    destruct (c_is_match_at_eq_pure A cfg Hwb Hcls Hkey Hentry Hstride Hempty h c at_ c' o Hc Ha E) as [_ [_ [->|Ho]]].
+    destruct (c_is_match_at_eq_pure A cfg Hwb Hcls Hkey Hentry Hloose Hnoeoi Hel Hruns Hempty h c at_ c' o
+                (bytes_ok_255 h Hb) Hc Ha E) as [_ [_ [->|Ho]]].
     - reflexivity.
     - subst o. cbn [snd]. destruct (p_is_match_at A cfg h at_) as [r|] eqn:Ep; [|reflexivity].
       cbn. eapply p_is_match_correct; eauto.
   Qed.
 
-  (* C02 / C14, existence part *)
   Theorem dfa_search_at_cached_none_iff h c at_ :
-    bytes_ok h ->
-    cinv A cfg c -> accel_ok c ->
+    bytes_ok h -> cinv A cfg c -> accel_sound A cfg c ->
     (snd (dfa_search_at A cfg c h at_) = None <-> find_at A h at_ = Done None).
   Proof.
     intros Hb Hc Ha. unfold dfa_search_at.
     destruct (c_search_at A cfg h c at_) as [c' o] eqn:E.
-    destruct (c_search_at_eq_pure A cfg Hwb Hcls Hkey Hentry Hstride Hempty h c at_ c' o Hc Ha E) as [_ [_ [->|Ho]]].
+    destruct (c_search_at_eq_pure A cfg Hwb Hcls Hkey Hentry Hloose Hnoeoi Hel Hruns Hempty h c at_ c' o
+                (bytes_ok_255 h Hb) Hc Ha E) as [_ [_ [->|Ho]]].
     - cbn. apply ref_end_none.
     - subst o. cbn [snd]. destruct (p_search_at A cfg h at_) as [r|] eqn:Ep.
       + cbn. eapply p_search_at_none_iff; eauto.
       + cbn. apply ref_end_none.
   Qed.
 
-  (* C02 / C14, the end: an end of the leftmost start (break-at-match on, the default) *)
   Theorem dfa_search_at_cached_leftmost_partial h c at_ e s0 e0 sl :
-    bytes_ok h -> cfg_break cfg = true ->
-    cinv A cfg c -> accel_ok c ->
+    bytes_ok h -> cfg_break cfg = true -> cinv A cfg c -> accel_sound A cfg c ->
     snd (dfa_search_at A cfg c h at_) = Some e ->
     find_at A h at_ = Done (Some (s0, e0, sl)) ->
     nfa_path A h (start_anch A) s0 e.
   Proof.
     intros Hb Hbrk Hc Ha. unfold dfa_search_at.
     destruct (c_search_at A cfg h c at_) as [c' o] eqn:E.
-    destruct (c_search_at_eq_pure A cfg Hwb Hcls Hkey Hentry Hstride Hempty h c at_ c' o Hc Ha E) as [_ [_ [->|Ho]]].
+    destruct (c_search_at_eq_pure A cfg Hwb Hcls Hkey Hentry Hloose Hnoeoi Hel Hruns Hempty h c at_ c' o
+                (bytes_ok_255 h Hb) Hc Ha E) as [_ [_ [->|Ho]]].
     - cbn. unfold ref_end. intros H Hf. rewrite Hf in H. inversion H; subst.
       now destruct (find_at_some A h Hwf _ _ _ _ Hf) as [_ [_ [_ [Hp _]]]].
     - subst o. cbn [snd]. destruct (p_search_at A cfg h at_) as [r|] eqn:Ep.
@@ -79,8 +86,6 @@ Section Top.
         now destruct (find_at_some A h Hwf _ _ _ _ Hf) as [_ [_ [_ [Hp _]]]].
   Qed.
 
-  (* SearchAtAnchored, DFA answer or (anchored) NFA fallback: complete and sound for the paths
-     anchored at at_, with ANY cache satisfying cinv (no acceleration in this loop) *)
   Theorem dfa_search_anchored_cached_correct h c at_ :
     at_ <= length h -> cinv A cfg c ->
     (snd (dfa_search_anchored A cfg c h at_) = None <-> forall e, ~ nfa_path A h (start_anch A) at_ e) /\
@@ -100,4 +105,45 @@ Section Top.
         * intros e ->. eapply p_search_anchored_end_sound; eauto.
       + cbn. rewrite Hentry. exact Hfb.
   Qed.
+
+  (* the same for every history of forward calls since NewCache() *)
+  Definition fwd_hist (ks : list call) : Prop :=
+    Forall (fun k => (k_op k <= 4)%N /\ bytes_ok (k_hay k)) ks.
+
+  Lemma fwd_hist_calls ks : fwd_hist ks -> Forall fwd_call ks.
+  Proof.
+    unfold fwd_hist, fwd_call. intros H. eapply Forall_impl; [|exact H]. cbn.
+    intros k [H1 H2]. split; [exact H1|now apply bytes_ok_255].
+  Qed.
+
+  Lemma hist_inv ks : fwd_hist ks ->
+    cinv A cfg (run_calls A cfg new_cache ks) /\ accel_sound A cfg (run_calls A cfg new_cache ks).
+  Proof.
+    intros H. apply (run_calls_inv A cfg Hwb Hcls Hkey Hentry Hloose Hnoeoi Hel Hruns Hempty ks new_cache
+                       (fwd_hist_calls ks H)); [apply cinv_new|apply accel_sound_new].
+  Qed.
+
+  Theorem dfa_is_match_any_history ks h at_ :
+    fwd_hist ks -> bytes_ok h -> at_ <= length h ->
+    snd (dfa_is_match_at A cfg (run_calls A cfg new_cache ks) h at_) = ref_bool A h at_.
+  Proof. intros Hk Hb Hat. destruct (hist_inv ks Hk). now apply dfa_is_match_cached_correct. Qed.
+
+  Theorem dfa_search_at_any_history_none_iff ks h at_ :
+    fwd_hist ks -> bytes_ok h ->
+    (snd (dfa_search_at A cfg (run_calls A cfg new_cache ks) h at_) = None <-> find_at A h at_ = Done None).
+  Proof. intros Hk Hb. destruct (hist_inv ks Hk). now apply dfa_search_at_cached_none_iff. Qed.
+
+  Theorem dfa_search_at_any_history_leftmost_partial ks h at_ e s0 e0 sl :
+    fwd_hist ks -> bytes_ok h -> cfg_break cfg = true ->
+    snd (dfa_search_at A cfg (run_calls A cfg new_cache ks) h at_) = Some e ->
+    find_at A h at_ = Done (Some (s0, e0, sl)) ->
+    nfa_path A h (start_anch A) s0 e.
+  Proof. intros Hk Hb Hbrk. destruct (hist_inv ks Hk). now apply dfa_search_at_cached_leftmost_partial. Qed.
+
+  Theorem dfa_search_anchored_any_history ks h at_ :
+    fwd_hist ks -> at_ <= length h ->
+    let r := snd (dfa_search_anchored A cfg (run_calls A cfg new_cache ks) h at_) in
+    (r = None <-> forall e, ~ nfa_path A h (start_anch A) at_ e) /\
+    (forall e, r = Some e -> at_ <= e /\ e <= length h /\ nfa_path A h (start_anch A) at_ e).
+  Proof. intros Hk Hat. destruct (hist_inv ks Hk). now apply dfa_search_anchored_cached_correct. Qed.
 End Top.
